@@ -26,8 +26,8 @@ const SWITCHES: [(u32, &str); 7] = [
 /// Trigger family: X op Y shapes with related / unrelated first sets, leading
 /// literals / classes / anchors, fixed-count repeats, long minimum lengths.
 pub fn triggers() -> Vec<String> {
-    let xs = ["a", "b", "A", "1", ".", "[ab]", "[^a]", "\\d", "\\s", "[a-c]", "\\n"];
-    let ys = ["a", "b", "A", "1", ".", "[ab]", "[^a]", "\\d", "^", "$", "\\n", "(a|b)", "ab"];
+    let xs = ["a", "b", "A", "1", ".", "[ab]", "[^a]", "\\d", "\\s", "[a-c]", "\\n", "z", "\u{e9}", "[x-z]"];
+    let ys = ["a", "b", "A", "1", ".", "[ab]", "[^a]", "\\d", "^", "$", "\\n", "(a|b)", "ab", "\\S", "\\D", "\\P{Lu}", "[^b]", "z", "\\w"];
     let qs = ["*", "+", "?", "{2}", "{1,2}", "*?", "+?", "{2,}"];
     let mut v: Vec<String> = vec![];
     for x in xs {
@@ -70,6 +70,13 @@ pub fn triggers() -> Vec<String> {
             }
         }
     }
+    // a repeat directly before a back-reference whose group may not have participated
+    for p in [
+        "(?:(a)|b)b*\\1b", "(a)?b+\\1b", "(a)*[bc]*\\1b", "^(?:(a)|b)c*\\1c$", "(a|ab|b)*c\\1", "^(a|ab|b)*\\1$", "(?:(a)|b)+b*\\1", "(a)?a*\\1a",
+        "(?:(\\w)\\1)+", "^(?:(a|b)\\1)+$", "(?:([a-z])\\1-?)+",
+    ] {
+        v.push(p.to_string());
+    }
     for n in 1..=5 {
         v.push("a".repeat(n));
         v.push(format!("(?:a|b){{{}}}", n));
@@ -90,6 +97,7 @@ fn space_for(tier: Tier) -> (Space, usize) {
             s.ast_range("CL", 4, 4, 64, 2);
             s.ast_range("LP", 1, 3, 32, 5);
             s.ast_range("ALT", 1, 3, 32, 4);
+            s.ast_range("FX", 1, 4, 32, 5).ast_range("FXA", 1, 4, 32, 5);
             s.list("triggers", t, 16);
             (s, 3)
         }
@@ -97,6 +105,7 @@ fn space_for(tier: Tier) -> (Space, usize) {
             s.ast("K", 5, 64).ast("CL", 4, 64).ast("Q", 3, 64).ast("AN", 4, 64).ast("G", 4, 64);
             s.ast_range("LP", 1, 4, 32, 6);
             s.ast_range("ALT", 1, 4, 32, 4);
+            s.ast_range("FX", 1, 4, 32, 6).ast_range("FXA", 1, 4, 32, 6);
             s.list("triggers", t, 16);
             (s, 4)
         }
@@ -214,7 +223,11 @@ impl Check for C08 {
             let t = triggers();
             let inputs = all_strings(&['a', 'b', 'A', '1', '\n'], maxlen.min(3));
             let mut extra = inputs.clone();
-            extra.extend(["aaaa", "abab", "aaab", "ababb", "aabb1", "1111", "\n\na\n", "bbbbb"].iter().map(|s| s.to_string()));
+            extra.extend(
+                ["aaaa", "abab", "aaab", "ababb", "aabb1", "1111", "\n\na\n", "bbbbb", "z", "zz", "zzz", "zzy", "\u{e9}\u{e9}", "xyz", "bcc", "bb", "bbb", "cb", "abcab", "aabb", "aAbB", "xx-yy."]
+                    .iter()
+                    .map(|s| s.to_string()),
+            );
             for i in lo..hi {
                 let text = &t[i as usize];
                 if common::ref_valid(text, ctx).is_none() {
